@@ -1,6 +1,6 @@
 (* C08 - property theorems only. *)
 From Coq Require Import Reals List.
-Require Import PV.Num PV.Asympt PV.TestStat PV.Hypotest.
+Require Import PV.Num PV.Asympt PV.TestStat PV.Hypotest PV.gen.HypotestGen PV.TieHypotest PV.gen.AsymptGen PV.TieAsympt.
 Import ListNotations.
 
 (* all 32 combinations of (is_q0, four flags): the returned items are exactly the requested extras in the
@@ -64,6 +64,27 @@ Theorem C08_multi_bin_reduction : forall r bins mu,
   nll_bins r mu bins = ((mu * (r * B) + B) - Nn * ln (mu * (r * B) + B)) + (Nn * ln B - konst bins).
 Proof. exact multi_bin_reduction. Qed.
 
+(* --- tie to the source: the tail of pyhf.infer.hypotest, _check_hypotest_prerequisites (PV.gen.HypotestGen, harness/props/c08.py:
+   extract) and the POI value of the Asimov data in AsymptoticCalculator.teststatistic (PV.gen.AsymptGen) are translated on every
+   run; they ARE the transcription (Hypotest.v) the theorems above are about --- *)
+Theorem C08_source_is_model_assemble : forall (T C : Type) (dflt : T) is_q0 tail exp expset calcf (p : pvals T) (calc : C),
+  gen_assemble T C dflt is_q0 tail exp expset calcf p calc = assemble T C dflt is_q0 tail exp expset calcf p calc.
+Proof. exact tie_assemble. Qed.
+(* `tuple(l) if len(l) > 1 else l[0]` on the (never empty) sequence l = x :: t *)
+Theorem C08_source_is_model_finish : forall (T C : Type) (x : ritem T C) t, gen_finish T C x t = finish T C (x :: t).
+Proof. exact tie_finish. Qed.
+Theorem C08_source_is_model_hypotest_tail : forall (T C : Type) (dflt : T) is_q0 tail exp expset calcf (p : pvals T) (calc : C),
+  exists x t, gen_assemble T C dflt is_q0 tail exp expset calcf p calc = x :: t /\
+              gen_finish T C x t = finish T C (assemble T C dflt is_q0 tail exp expset calcf p calc).
+Proof. exact tie_hypotest_tail. Qed.
+Theorem C08_source_is_model_is_q0 : forall ts, gen_is_q0 ts = match ts with Some KQ0 => true | _ => false end.
+Proof. exact tie_is_q0. Qed.
+Theorem C08_source_is_model_check_prerequisites : forall poi_index fixed_params,
+  gen_check_prerequisites poi_index fixed_params = check_prerequisites poi_index fixed_params.
+Proof. exact tie_check_prerequisites. Qed.
+Theorem C08_source_is_model_asimov_mu : forall (N : Num) Phi sq k, gen_asimov_mu N Phi sq k = match k with KQ0 => n1 N | _ => n0 N end.
+Proof. exact tie_asimov_mu. Qed.
+
 Print Assumptions C08_layout_documented_order.
 Print Assumptions C08_layout_length.
 Print Assumptions C08_singleton_unwrapped.
@@ -73,3 +94,9 @@ Print Assumptions C08_accepted_layout.
 Print Assumptions C08_asimov_is_expectation.
 Print Assumptions C08_hypotest_counting_analytic.
 Print Assumptions C08_multi_bin_reduction.
+Print Assumptions C08_source_is_model_assemble.
+Print Assumptions C08_source_is_model_finish.
+Print Assumptions C08_source_is_model_hypotest_tail.
+Print Assumptions C08_source_is_model_is_q0.
+Print Assumptions C08_source_is_model_check_prerequisites.
+Print Assumptions C08_source_is_model_asimov_mu.
